@@ -308,3 +308,14 @@ func vUpdate6(prefix *bgp.IPAddrPrefix, withdraw bool, aspath []uint32) *bgp.BGP
 type uuidT = uuid.UUID
 
 type netipAddr = netip.Addr
+
+// vEventually waits for something that must happen once the other goroutines have run: in the engine
+// one vSettle() is enough (they run until they block); natively the 150 ms of a vSettle() may not be
+// under load, so the condition is polled for up to 6 s. Only for expectations of the form "this
+// eventually happens" - "this has not happened" is checked after a single vSettle().
+func vEventually(cond func() bool) bool {
+	for i := 0; i < 40 && !cond(); i++ {
+		vSettle()
+	}
+	return cond()
+}
